@@ -589,8 +589,11 @@ def run(ctx) -> dict:
     if len(r5.instances) < 4:
         raise AnalysisError(f'R13.5: only {len(r5.instances)} clone pairs located in the regex package')
     results.append(r5)
+    # process-wide state is written only by the reviewed inventory (no new caches)
+    from .c19_global import r19_5 as _r19_5
+    _state = _r19_5(ctx, counts, lambda f: f.module.name.startswith('elementpath.regex'), 2)
     return {
-        'results': results, 'counts': counts,
+        'results': results + [_state], 'counts': counts,
         'explanation':
             'The generated Unicode tables are data: they are read with ast.literal_eval, composed '
             'per version exactly as get_categories/UnicodeData compose them (shape of '
